@@ -279,24 +279,35 @@ def observe(g, kind, pool, lags, vars_):
 
 
 # cached readers used to warm caches between operations (their results are not compared here)
-def warm_caches(g, rng):
-    readers = ['is_dag', 'to_networkx', 'adjacency_matrix', 'to_numpy', 'identifier', 'is_empty']
+def warm_caches(g, rng, p=0.4):
+    """Call a random subset of the cached / derived readers (results are not compared here): every state-based check interleaves
+    this with its mutations so that a cache that is not invalidated along some path shows up as a wrong later answer."""
+    readers = ['is_dag', 'to_networkx', 'adjacency_matrix', 'to_numpy', 'identifier', 'is_empty', 'to_gml_string',
+               'get_topological_order', 'to_dict', 'get_node_names', 'get_edge_pairs']
     if isinstance(g, TimeSeriesCausalGraph):
-        readers += ['variables', 'is_minimal_graph', 'is_stationary_graph']
+        readers += ['variables', 'is_minimal_graph', 'is_stationary_graph', 'adjacency_matrices', 'max_backward_lag',
+                    'max_forward_lag', 'maxlag', 'get_minimal_graph', 'get_summary_graph', 'get_all_variable_names']
     for r in readers:
-        if rng.random() < 0.4:
+        if rng.random() < p:
             try:
                 a = getattr(g, r)
                 if callable(a):
                     a()
             except Exception:  # noqa: BLE001
                 pass
+    if rng.random() < p:
+        try:
+            sk = g.skeleton
+            sk.edges, sk.nodes, sk.adjacency_matrix, sk.to_networkx(), sk.get_edge_pairs()
+        except Exception:  # noqa: BLE001
+            pass
 
 
 # ------------------------------------------------------------------------------------------
 # generator
 # ------------------------------------------------------------------------------------------
-METAS = [None, None, None, {}, {'a': 1}, {'w': [1, {'x': None}], 'b': True}, {'color': 'red', 'n': -3}]
+METAS = [None, None, None, {}, {'a': 1}, {'w': [1, {'x': None}], 'b': True}, {'color': 'red', 'n': -3}, {'unit': None},
+         {'k': None, 'z': 0, 'e': '', 'f': False, 'l': [], 'd': {}}]
 PLAIN_POOL = ['a', 'b', 'c', 'd', 'e']
 HOSTILE = ['X\n', 'a b', 'é', 'lag', 'node_1', '']
 
